@@ -7,9 +7,11 @@ d R-GUARD  X skip / * raise before storage (shared with C04.c)
 e R-GUARD  N-terminal methionine removal only for start-codon peptides that start with M
 """
 import ast
+import re
 from sa.model import unparse, norm_stmt, call_name, kwarg, walk_no_nested, AnalysisError
 from sa.cfg import CFG
 from sa import guards as G
+from sa import sem
 
 VPD = 'svgraph.VariantPeptideDict:'
 FMN = VPD + 'VariantPeptideDict.find_miscleaved_nodes'
@@ -32,40 +34,51 @@ def run(chk, repo):
     rel = f.module.relpath
 
     # ------------------------------------------------------------------ a
-    chk.rule('C02.a', 'R-GUARD: truncated / hybrid / stop nodes excluded from series', 5)
-    first = [n for n in cfg.nodes if n.kind == 'stmt' and norm_stmt(n.ast).startswith('series = MiscleavedNodeSeries([node]')]
+    # semantic form on the normal form of find_miscleaved_nodes (sa/sem.py): must-facts at the statements that put a node
+    # into a series; local names are discovered, not assumed
+    chk.rule('C02.a', 'R-GUARD: truncated / hybrid / stop nodes excluded from series', 4)
+    nf = sem.nf(repo, f)
+    first = sem.facts_where(nf, lambda st: sem.own_stmt(st) and any(
+        c.args and isinstance(c.args[0], ast.List) and [unparse(e) for e in c.args[0].elts] == ['node'] for c in sem.calls_in_stmt(st, 'MiscleavedNodeSeries')))
     if len(first) != 1:
-        raise AnalysisError(f"anchor={FMN}: leading series construction not found")
-    ok, w, n = G.always_at(cfg, first[0].id, 'not node.truncated and not node.cpop_collapsed')
-    chk.paths += n
-    chk.ob('C02.a', 'leading node enters a series only if not truncated and not pop-collapsed', repo.loc(f, first[0].ast), ok,
+        raise AnalysisError(f"anchor={FMN}: leading series construction MiscleavedNodeSeries([node], ...) not found ({len(first)})")
+    fx0 = first[0][1]
+    ok = sem.known(fx0, 'not node.truncated') is True and sem.known(fx0, 'not node.cpop_collapsed') is True
+    chk.ob('C02.a', 'leading node enters a series only if not truncated and not pop-collapsed', f.where, ok,
            'the leading node can start a series while truncated / pop-collapsed: peptides clipped at a truncated transcript end are reported',
-           key=FMN + '::leading-guard', path=w.describe(rel) if w else None, fn=f.qual)
-    app = [n for n in cfg.nodes if n.kind == 'stmt' and norm_stmt(n.ast) == 'new_batch.append(_node)']
-    if len(app) != 1:
-        raise AnalysisError(f"anchor={FMN}: new_batch.append(_node) not found")
-    loop = next(l for l in G.find_for(f.node) if unparse(l.iter) == 'cur_node.out_nodes')
-    head = cfg.node_for(loop)
-    for formula, what in (('not _node.truncated', 'truncated'),
-                          ('not is_circ_rna or not _node.is_hybrid_node(subgraphs)', 'circRNA hybrid'),
-                          ('not is_stop', 'lone stop')):
-        ps = G.paths_to(cfg, app[0].id, start=head)
-        chk.paths += len(ps)
-        bad = next((p for p in ps if p.facts.known(formula) is not True), None)
-        chk.ob('C02.a', f"extension node is known '{formula}'", repo.loc(f, app[0].ast), bad is None and bool(ps),
-               f"a {what} node can be appended to a miscleavage series (unrealizable peptides)", key=FMN + f'::extend-guard::{what}',
-               path=bad.describe(rel) if bad else None, fn=f.qual)
-    stopdef = G.resolve_local(loop, 'is_stop')
-    chk.ob('C02.a', "is_stop = single '*' node", repo.loc(f, loop), stopdef is not None and
-           unparse(stopdef) == "len(_node.seq.seq) == 1 and _node.seq.seq.startswith('*')", f"is_stop = {unparse(stopdef) if stopdef else None}",
-           key=FMN + '::is_stop', fn=f.qual)
+           key=FMN + '::leading-guard', fn=f.qual)
+    loops = sem.loops_where(nf, lambda t: t.endswith('.out_nodes'))
+    if len(loops) != 1 or sem.target_name(loops[0]) is None:
+        raise AnalysisError(f"anchor={FMN}: loop over the out nodes of the last node of the batch not found ({len(loops)})")
+    loop = loops[0]
+    X = sem.target_name(loop)
+    ext = sem.facts_in_iteration(nf, loop, lambda st: sem.own_stmt(st) and any(
+        len(c.args) == 1 and unparse(c.args[0]) == X for c in sem.calls_in_stmt(st, 'append')))
+    if not ext:
+        raise AnalysisError(f"anchor={FMN}: extension of the batch by the out node (<batch>.append({X})) not found")
+    for formula, what in ((f'not {X}.truncated', 'truncated'),
+                          (f'not is_circ_rna or not {X}.is_hybrid_node(subgraphs)', 'circRNA hybrid'),
+                          (f"not (len({X}.seq.seq) == 1 and {X}.seq.seq.startswith('*'))", 'lone stop')):
+        ok = all(sem.known(fx, formula) is True for _st, fx in ext)
+        chk.ob('C02.a', f"extension node is known '{formula}'", f.where, ok,
+               f"a {what} node can be appended to a miscleavage series (unrealizable peptides)", key=FMN + f'::extend-guard::{what}', fn=f.qual)
 
     # ------------------------------------------------------------------ b
     chk.rule('C02.b', 'R-EFFECT: complexity-limit branches are skip-only', 3)
-    lim = [n for n in walk_no_nested(f.node) if isinstance(n, ast.If) and unparse(n.test) == 'len(cur_vars) > allowed_n_vars']
-    ok = len(lim) == 1 and G.block_only_skips(lim[0].body)
-    chk.ob('C02.b', 'find_miscleaved_nodes: too many variants -> continue only', repo.loc(f, lim[0]) if lim else f.where, ok,
-           'the variant-count limit branch does more than skip', key=FMN + '::limit-skip', fn=f.qual)
+    # the variant-count limit: every statement that records a series or extends the queue is reached only when the
+    # number of variants does not exceed the allowance  (a limit can only skip)
+    eff = sem.facts_in_iteration(nf, loop, lambda st: sem.own_stmt(st) and (bool(sem.calls_in_stmt(st, 'append')) and
+                                 any(unparse(c.func.value).endswith(('.data', 'queue')) for c in sem.calls_in_stmt(st, 'append'))))
+    lim_txt = None
+    for n in ast.walk(loop):
+        if isinstance(n, ast.Compare) and len(n.ops) == 1 and unparse(n).count('len(') == 1:
+            src = unparse(n) + ' ' + ' '.join(sem.defining_text(nf, x.id) for x in ast.walk(n) if isinstance(x, ast.Name))
+            if 'max_variants_per_node' in src and 'additional_variants_per_misc' in src:
+                lim_txt = unparse(n)
+    ok = lim_txt is not None and bool(eff) and all(sem.known(fx, lim_txt) is False for _st, fx in eff)
+    chk.ob('C02.b', 'find_miscleaved_nodes: too many variants -> nothing recorded, nothing queued', f.where, ok,
+           f"the variant-count limit ('{lim_txt}') does not guard every recording / queueing statement: it does more than skip",
+           key=FMN + '::limit-skip', fn=f.qual)
     mr = repo.func('svgraph.PeptideVariantGraph:PeptideVariantGraph.merge_nodes_routes')
     chk.uses(mr)
     lim2 = [n for n in walk_no_nested(mr.node) if isinstance(n, ast.If) and unparse(n.test) == 'self.nodes_have_too_many_variants(route)']
@@ -205,23 +218,40 @@ def retry_effects(chk, repo, rid):
     h = [h for t in walk_no_nested(r.node) if isinstance(t, ast.Try) for h in t.handlers]
     if len(h) != 1:
         raise AnalysisError('anchor=caller_reducer: single TimeoutError handler expected')
-    ws = G.writes_in(h[0].body)
-    attr_writes = sorted(unparse(w[2].targets[0]) for w in ws if w[1] == 'attr')
-    chk.ob(rid, 'retry writes only p.max_variants_per_node and p.additional_variants_per_misc', repo.loc(r, h[0]),
-           attr_writes == ['p.additional_variants_per_misc', 'p.max_variants_per_node'],
-           f"attribute writes in the retry handler: {attr_writes} (a retry may alter enzyme / limits / flags)", key=r.qual + '::attr-writes', fn=r.qual)
-    txt = [norm_stmt(s) for s in h[0].body]
-    ok = "p = copy.copy(new_dispatch['cleavage_params'])" in txt and 'new_dispatch = copy.copy(dispatch)' in txt and \
-        "new_dispatch['cleavage_params'] = p" in txt and 'dispatch = new_dispatch' in txt
-    chk.ob(rid, 'parameters and dispatch are copied before being modified', repo.loc(r, h[0]), ok,
-           'the retry mutates the shared dispatch / cleavage parameters in place', key=r.qual + '::copies', fn=r.qual)
-    item_writes = sorted(unparse(w[2].targets[0]) for w in ws if w[1] == 'item')
-    chk.ob(rid, "only dispatch['cleavage_params'] is replaced", repo.loc(r, h[0]), item_writes == ["new_dispatch['cleavage_params']"],
-           f"dispatch entries replaced: {item_writes}", key=r.qual + '::item-writes', fn=r.qual)
-    # tightening direction: new limits come from the tail of the given tuples or (current - 1)
-    ok = 'max_variants_per_node = max_variants_per_node[1:]' in txt and 'additional_variants_per_misc = additional_variants_per_misc[1:]' in txt and \
-        'p.max_variants_per_node = max_variants_per_node[0]' in txt and 'p.additional_variants_per_misc = additional_variants_per_misc[0]' in txt and \
-        'max_variants_per_node = (p.max_variants_per_node - 1,)' in [norm_stmt(s) for s in ast.walk(h[0]) if isinstance(s, ast.Assign)]
-    chk.ob(rid, 'next limits = next configured value, else current - 1 (raise at 0)', repo.loc(r, h[0]), ok,
-           'retry limit schedule altered', key=r.qual + '::schedule', fn=r.qual)
-
+    hb = h[0]
+    assigns = [n for n in ast.walk(hb) if isinstance(n, ast.Assign) and len(n.targets) == 1]
+    # P: locals bound to a copy of the cleavage parameters of the dispatch;  D: locals bound to a copy of the dispatch
+    param = r.params()[0] if r.params() else 'dispatch'
+    D = {unparse(a.targets[0]) for a in assigns if isinstance(a.targets[0], ast.Name) and unparse(a.value) == f'copy.copy({param})'}
+    srcs = {param} | D
+    P = {unparse(a.targets[0]) for a in assigns if isinstance(a.targets[0], ast.Name) and isinstance(a.value, ast.Call) and call_name(a.value) == 'copy'
+         and len(a.value.args) == 1 and isinstance(a.value.args[0], ast.Subscript) and unparse(a.value.args[0].value) in srcs
+         and unparse(a.value.args[0].slice) == "'cleavage_params'"}
+    attr_w = [(unparse(a.targets[0].value), a.targets[0].attr, a) for a in assigns if isinstance(a.targets[0], ast.Attribute)]
+    attr_w += [(unparse(n.target.value), n.target.attr, n) for n in ast.walk(hb) if isinstance(n, ast.AugAssign) and isinstance(n.target, ast.Attribute)]
+    attrs = sorted({a for (_o, a, _n) in attr_w})
+    chk.ob(rid, 'retry writes only <params copy>.max_variants_per_node and .additional_variants_per_misc', repo.loc(r, hb),
+           attrs == ['additional_variants_per_misc', 'max_variants_per_node'],
+           f"attribute writes in the retry handler: {sorted((o + '.' + a) for (o, a, _n) in attr_w)} (a retry may alter enzyme / limits / flags)", key=r.qual + '::attr-writes', fn=r.qual)
+    item_w = [(unparse(a.targets[0].value), unparse(a.targets[0].slice), a) for a in assigns if isinstance(a.targets[0], ast.Subscript)]
+    rebind = [a for a in assigns if isinstance(a.targets[0], ast.Name) and a.targets[0].id == param and unparse(a.value) in D]
+    ok = len(P) >= 1 and len(D) >= 1 and all(o in P for (o, _a, _n) in attr_w) and all(o in D for (o, _k, _n) in item_w) and \
+        any(k == "'cleavage_params'" and unparse(n.value) in P for (_o, k, n) in item_w) and len(rebind) == 1
+    chk.ob(rid, 'parameters and dispatch are copied before being modified', repo.loc(r, hb), ok,
+           f"the retry mutates the shared dispatch / cleavage parameters in place (copies of params: {sorted(P)}, copies of dispatch: {sorted(D)}, "
+           f"attribute writes on {sorted({o for (o, _a, _n) in attr_w})}, item writes on {sorted({o for (o, _k, _n) in item_w})})", key=r.qual + '::copies', fn=r.qual)
+    keys = sorted({k for (_o, k, _n) in item_w})
+    chk.ob(rid, "only dispatch['cleavage_params'] is replaced", repo.loc(r, hb), keys == ["'cleavage_params'"],
+           f"dispatch entries replaced: {keys}", key=r.qual + '::item-writes', fn=r.qual)
+    # tightening direction: the value written to each knob comes from the tail of the configured schedule ([1:] ... [0]) or current - 1 / 0
+    def src_of(attr):
+        out = ''
+        for (_o, a, n) in attr_w:
+            if a == attr and isinstance(n, ast.Assign):
+                out += unparse(n.value) + ' <- ' + ' ; '.join(sem.defining_text(hb, x.id) for x in ast.walk(n.value) if isinstance(x, ast.Name))
+        return out
+    s1, s2 = src_of('max_variants_per_node'), src_of('additional_variants_per_misc')
+    ok = '[1:]' in s1 and '[0]' in s1 and '.max_variants_per_node - 1' in s1 and '[1:]' in s2 and '[0]' in s2 and not re.search(r'\+ *[1-9]', s1 + s2)
+    raises = [n for n in ast.walk(hb) if isinstance(n, ast.Raise)]
+    chk.ob(rid, 'next limits = next configured value, else current - 1 (raise at 0)', repo.loc(r, hb), ok and len(raises) >= 1,
+           f"retry limit schedule altered: max_variants_per_node <- {s1[:160]}; additional_variants_per_misc <- {s2[:160]}", key=r.qual + '::schedule', fn=r.qual)
